@@ -885,7 +885,13 @@ pub fn headers(bytes: &Bytes) -> Result<(HeaderMap, usize), Error> {
                 if byte == chars::SPACE {
                     parse_stage.next();
                     let rest = &bytes[pos..];
-                    value_start = rest.iter().copied().position(|b| b != b' ').unwrap_or(0) + pos;
+                    // the value starts after the optional whitespace (spaces and tabs)
+                    value_start = rest
+                        .iter()
+                        .copied()
+                        .position(|b| b != b' ' && b != chars::TAB)
+                        .unwrap_or(0)
+                        + pos;
                 }
             }
             RequestParseStage::HeaderValue(..) => {
@@ -904,6 +910,15 @@ pub fn headers(bytes: &Bytes) -> Result<(HeaderMap, usize), Error> {
                     } else {
                         pos
                     };
+                    // optional whitespace after the value isn't part of it
+                    let value_end = bytes
+                        .get(value_start..value_end)
+                        .and_then(|value| {
+                            value
+                                .iter()
+                                .rposition(|b| *b != chars::SPACE && *b != chars::TAB)
+                        })
+                        .map_or(value_start.min(value_end), |last| value_start + last + 1);
                     let value = HeaderValue::from_maybe_shared(bytes.slice(value_start..value_end))
                         .ok()
                         .ok_or(Error::IllegalValue)?;
